@@ -40,6 +40,7 @@ for m in json.load(open('mutants/index.json')):
     if '$FILTER' in m['name'] or '$FILTER' == m['property']:
         print(m['name'], m['property'], m['expect'] or '-', 'true' if m.get('silent') else 'false')
 " > "$WORK/list"
+[ -s "$WORK/list" ] || { echo "no mutant matches '$FILTER'"; exit 0; }
 res=$(cat "$WORK/list" | xargs -P 8 -L 1 bash -c 'run_one "$0" "$1" "$2" "$3"; echo "RC $?"' )
 echo "$res" | grep -v '^RC '
 nfail=$(echo "$res" | grep -c '^FAIL')
